@@ -191,6 +191,12 @@ class ContractMixin:
                                                           z3.Select(cur, x) == z3.Select(old, x))))
                 return k(mk_bool(z3.And(*terms)), s)
             return self.ev_list(e.args[1:], st, with_objs)
+        if name == "is_a":
+            # plain (MRO) instance test, no metaclass hooks
+            def with_vals2(vs, s):
+                v, c = vs
+                return k(mk_bool(z3.And(v.t != NULL, subclass(cls_of(v.t), self.class_term(c)))), s)
+            return self.ev_list(e.args, st, with_vals2)
         if name == "cast":
             def with_vals(vs, s):
                 v, c = vs
@@ -540,6 +546,8 @@ class ContractMixin:
         return fr
 
     def coerce_param(self, st, v, ty):
+        if isinstance(ty, str):
+            return v      # 'class:X' / 'singleton:x' parameters are passed through
         if ty[0] == "list":
             if isinstance(v, EmptyList) or (isinstance(v, PyTup) and not v.items):
                 return self.empty_list(ty[1])
@@ -791,6 +799,9 @@ class ContractMixin:
             st.assume(lv.n >= 0)
             return lv
         v = fresh_val("res", ty)
+        if ty[0] in ("tup", "opt"):
+            for rt, cn in self.typed_refs(v.t, ty):
+                st.assume(z3.Or(rt == NULL, subclass(cls_of(rt), cls_const(cn))))
         if ty[0] == "ref" and len(ty) == 2:
             st.assume(v.t != NULL)
         if ty[0] == "ref" and ty[1] is not None:
